@@ -113,6 +113,7 @@ let show_out (o : AttrTree.aop) (r : AttrTree.aout) (s : AttrTree.astate) : stri
       show_status st ^ ":" ^ (match k with None -> "end" | Some k -> hex_of_bytes k) ^ ":" ^
       show_status st2 ^ ":" ^ char_of_ty ty ^ ":" ^ show_val v
   | _, ACtx c -> "c" ^ string_of_int (int_of_nat c)
+  | _, ANoIter -> "NOITER"
   | _, ABad -> "BAD"
 
 (* "6c696e7578.757473" -> components *)
@@ -149,7 +150,13 @@ let parse_fresh (s : string) =
 
 let header (line : string) : string option =
   match words line with
-  | "TREE" :: toks -> the_tree := Some (parse_tree toks); fresh := []; Some "tree"
+  | "TREE" :: toks ->
+      let t = parse_tree toks in
+      the_tree := Some t; fresh := [];
+      (* the hypotheses of the theorems, evaluated on the dictionary the run starts from *)
+      if not (AttrTree.anc_okb t) then Some "tree-not-ancestor-closed"
+      else if not (AttrTree.uniqb t) then Some "tree-with-duplicate-sibling-keys"
+      else Some "tree"
   | ["FRESH"; idx; d] -> fresh := (idx, parse_fresh d) :: !fresh; Some "fresh"
   | _ -> None
 
